@@ -195,7 +195,10 @@ def run_property(a, P, props, seed, t0):
             bounded_only.append(f"{c['file']}::{c['func']} (contract {c['key']})")
             continue
         jobs.append((files, c['key'], 'contract', a.tier, exclusions.get(c['key'])))
-        for lname in c.get('lemmas', {}):
+        for lname, lem in c.get('lemmas', {}).items():
+            if lem.get('vc') is False:
+                bounded_only.append(f"{c['file']}::{c['func']} lemma {lname} (contract {c['key']})")
+                continue
             jobs.append((files, c['key'], lname, a.tier, exclusions.get(c['key'])))
     results = []
     if jobs:
